@@ -160,22 +160,42 @@ def permsOf {α : Type} : List α → List (List α)
   | [] => [[]]
   | x :: xs => (permsOf xs).flatMap fun p => (List.range (p.length + 1)).map fun i => p.take i ++ x :: p.drop i
 
+/-- all ways of replacing each element by one of its variants, the unchanged list first; never
+    more than 600 are kept at any level -/
 def listVariants {α : Type} (f : α → List α) : List α → List (List α)
   | [] => [[]]
-  | x :: xs => (f x).flatMap fun x' => (listVariants f xs).map (x' :: ·)
+  | x :: xs =>
+    let rest := listVariants f xs
+    (((f x).take 600).flatMap fun x' => (rest.take (600 / ((f x).length.max 1) + 1)).map (x' :: ·)).take 600
+
+def sublists {α : Type} : List α → List (List α)
+  | [] => [[]]
+  | x :: xs => let r := sublists xs; r ++ r.map (x :: ·)
+
+/-- orders of the keys of a map that can differ in effect. All that matters is which keys come
+    before the first one whose claim fails: up to four keys every permutation; above that, every
+    choice of "these first, then that one, then the rest" (the original order first). -/
+def orderVariants {α : Type} [BEq α] (l : List α) : List (List α) :=
+  if l.length ≤ 1 then [l]
+  else if l.length ≤ 4 then permsOf l
+  else if l.length ≤ 7 then
+    l :: (sublists l).flatMap fun pre =>
+      let rest := l.filter fun x => !pre.contains x
+      rest.map fun c => pre ++ c :: rest.filter fun x => !(x == c)
+  else [l]
 
 def updVariants (u : Update) : List Update :=
   match u.resources with
   | some r =>
-    if u.ignoreFailure && r.unified.length ≥ 2 && r.unified.length ≤ 4 then
-      (permsOf r.unified).map fun un => { u with resources := some { r with unified := un } }
+    if u.ignoreFailure && r.unified.length ≥ 2 then
+      (orderVariants r.unified).map fun un => { u with resources := some { r with unified := un } }
     else [u]
   | none => [u]
 
-/-- the chain itself first, then its variants (at most 48) -/
+/-- the chain itself first, then its variants (at most 600) -/
 def chainVariants (chain : List (Plugin × Response)) : List (List (Plugin × Response)) :=
   (listVariants (fun (x : Plugin × Response) =>
-      (listVariants updVariants x.2.updates).map fun us => (x.1, { x.2 with updates := us })) chain).take 48
+      (listVariants updVariants x.2.updates).map fun us => (x.1, { x.2 with updates := us })) chain).take 600
 
 def judgeChain (j : Json) (variant : Nat) : Except String (Judged × Nat) := do
   let inJ ← getObj j "in"
